@@ -9,10 +9,11 @@ open Pandora.Go.C04 Pandora.Model.C04
 
 /-- The clock hypotheses for ONE `Wait` call:
 * a reading is not later than the instants at which it is used (arming the timer, returning);
-* a timer does not fire early: armed at instant `arm` for `next - now`, it is delivered at `ret ≥ arm + (next - now)`. -/
+* a timer does not fire early: armed at instant `arm` for `next - now`, it is delivered at `ret ≥ arm + (next - now)`
+  (only calls that get as far as the timer: context not done at entry, token in the future of the reading). -/
 def EnvOK (e : Env) : Prop :=
   e.now ≤ e.arm ∧ e.now ≤ e.ret ∧
-    ∀ next ∈ e.tok, e.now < next → e.timerWins = true → e.arm + (next - e.now) ≤ e.ret
+    ∀ next ∈ e.tok, e.ctxDone = false → e.now < next → e.timerWins = true → e.arm + (next - e.now) ≤ e.ret
 
 instance (e : Env) : Decidable (EnvOK e) := by unfold EnvOK; exact inferInstance
 
@@ -68,7 +69,7 @@ theorem waitV_ok (v : Variant) (w : Waiter) (e : Env) (hok : EnvOK e) (hinv : w.
   · cases htok : e.tok with
     | none => simp [hc, htok] at h
     | some next =>
-      have htimer' := htimer next (by simp [htok])
+      have htimer' := htimer next (by simp [htok]) (by simpa using hc)
       refine ⟨next, rfl, ?_⟩
       simp only [hc, htok, timeSub] at h ⊢
       by_cases h1 : next - w.lastNow ≤ 0
